@@ -121,4 +121,73 @@ def outcomeKey (o : Obs) : String :=
   | .cancelled => "cancelled"
   | .panic => "panic"
 
+
+/-! ### C05 — credentials used only for their own RP and as the allow / exclude lists say -/
+
+/-- the documented lookup contract, on the store content before the call: the stored credentials bound
+to `rp` and, if an id list is given, named in it -/
+def contractMatches (pre : List PkSnap) (ids : Option (List Bytes)) (rp : Bytes) : List Bytes :=
+  (pre.filter (fun p => p.rpId == rp && (match ids with | none => true | some l => l.any (· == p.credId)))).map (·.credId)
+
+def sameSet (a b : List Bytes) : Bool := a.all (fun x => b.any (· == x)) && b.all (fun x => a.any (· == x))
+
+inductive ContractBreach where
+  | none
+  | foundOtherRp        -- a credential bound to another RP was returned (its id was listed, or no list given)
+  | foundUnlisted       -- a credential not named in the id list was returned
+  | nothingWithoutList  -- no id list given, credentials for the RP exist, none returned
+  | missedListed        -- an id list given, a listed credential of the RP exists, not returned
+  deriving DecidableEq, Repr
+
+/-- does every (un-faulted) lookup of the trace answer as the contract says? -/
+def c05_store_contract (pre : List PkSnap) (trace : List EvObs) : ContractBreach :=
+  match trace.find? (fun ev => match ev with | .find _ _ _ => true | _ => false) with
+  | some (.find ids rp res) =>
+    let want := contractMatches pre ids rp
+    let got := match res with | .ok l => l | .error _ => []
+    let isNoCred := match res with | .error c => c == eNoCredentials | .ok _ => true
+    let listed (x : Bytes) : Bool := match ids with | none => true | some l => l.any (· == x)
+    if !isNoCred then .none          -- an injected fault, not the store's answer
+    else if !(got.all listed) then .foundUnlisted
+    else if !(got.all (fun x => want.any (· == x))) then .foundOtherRp
+    else if !(want.all (fun x => got.any (· == x))) then (if ids.isNone then .nothingWithoutList else .missedListed)
+    else .none
+  | _ => .none
+
+/-- an assertion is produced only with a credential the lookup returned first, the lookup being made for
+the request's RP ID and its non-empty allow list (an empty list counts as absent) -/
+def c05_assert_uses_lookup (req : GetReq) (o : Obs) : Bool :=
+  match o.res with
+  | .getOk cred _ _ _ _ =>
+    o.trace.any (fun ev => match ev with
+      | .find ids rp (.ok (first :: _)) =>
+        rp == req.rpId && first == cred
+          && (match req.allowList with
+              | some l => if l.isEmpty then ids.isNone else ids == some l
+              | none => ids.isNone)
+      | _ => false)
+  | _ => true
+
+/-- with a store that keeps the contract: the credential used is bound to the RP and named in a non-empty allow list -/
+def c05_assert_bound (pre : List PkSnap) (req : GetReq) (o : Obs) : Bool :=
+  match o.res with
+  | .getOk cred _ _ _ _ =>
+    pre.any (fun p => p.credId == cred && p.rpId == req.rpId)
+      && (match req.allowList with | some l => l.isEmpty || l.any (· == cred) | none => true)
+  | _ => true
+
+/-- the ceremony got past the consent stage (so the exclude list is what decides next) -/
+def pastConsentMake (e : Env) (r : MakeReq) : Bool :=
+  r.up && consentGiven e (.make r) && !(r.uv && e.uv.verification != some true)
+
+/-- registration fails with credential-excluded, creating nothing, exactly when a non-empty exclude list
+names a credential already held for the same RP -/
+def c05_excluded_iff (e : Env) (r : MakeReq) (o : Obs) : Bool :=
+  if !pastConsentMake e r || e.faulty then true else
+  let expected := match r.excludeList with
+    | some l => !l.isEmpty && e.pre.any (fun p => p.rpId == r.rpId && l.any (· == p.credId))
+    | none => false
+  let isExcluded := match o.res with | .err c => c == eCredentialExcluded | _ => false
+  (isExcluded == expected) && (!isExcluded || (o.store == e.pre && !o.trace.any isEffect))
+
 end PasskeyVerif.Auth.Spec
